@@ -98,4 +98,9 @@ HARNESSES = [
 from specs import c07 as _c07   # noqa: E402
 
 HARNESSES += [h for h in _c07.HARNESSES if h.name in ("H07a", "H07b")]
+# "a second save/open cycle changes nothing further": the string list reset / re-keying over two consecutive saves is
+# shared with C06
+from specs import c06 as _c06   # noqa: E402
+
+HARNESSES += [h for h in _c06.HARNESSES if h.name in ("H06a-rekey", "H06a-two-saves")]
 PROPERTY = "C02"
